@@ -1,0 +1,58 @@
+//go:build verif && vfs
+
+package litestream
+
+import (
+	"context"
+
+	"github.com/superfly/ltx"
+)
+
+// This file is compiled only with the "verif" and "vfs" build tags. It exports
+// thin wrappers around unexported VFS state so that an external verification
+// harness can drive single poll iterations and observe the page index. It adds
+// no behaviour.
+
+// VerifPoll runs exactly one iteration of the replica poll
+// (what monitorReplicaClient does on every tick when no target time is set).
+func (f *VFSFile) VerifPoll(ctx context.Context) error {
+	return f.pollReplicaClient(ctx)
+}
+
+// VerifVFSState is a copy of the in-memory view state of a VFSFile.
+type VerifVFSState struct {
+	Pos            ltx.Pos
+	MaxTXID1       ltx.TXID
+	Commit         uint32
+	PageSize       uint32
+	PendingReplace bool
+	Index          map[uint32]ltx.PageIndexElem
+	Pending        map[uint32]ltx.PageIndexElem
+	CacheLen       int
+}
+
+// VerifState returns a copy of the page index, the pending index and the
+// position bookkeeping.
+func (f *VFSFile) VerifState() VerifVFSState {
+	f.mu.Lock()
+	defer f.mu.Unlock()
+	st := VerifVFSState{
+		Pos:            f.pos,
+		MaxTXID1:       f.maxTXID1,
+		Commit:         f.commit,
+		PageSize:       f.pageSize,
+		PendingReplace: f.pendingReplace,
+		Index:          make(map[uint32]ltx.PageIndexElem, len(f.index)),
+		Pending:        make(map[uint32]ltx.PageIndexElem, len(f.pending)),
+	}
+	for k, v := range f.index {
+		st.Index[k] = v
+	}
+	for k, v := range f.pending {
+		st.Pending[k] = v
+	}
+	if f.cache != nil {
+		st.CacheLen = f.cache.Len()
+	}
+	return st
+}
